@@ -49,6 +49,9 @@ def mk_monitor(meta):
     return mon
 
 
+CRC_TWINS = {"plumless": "buckeroo", "buckeroo": "plumless"}
+
+
 def table_case(ops, meta, entries):
     """entries: list of (user, pw, mount-or-None)"""
     ops.append("file " + " ".join(line(*e) for e in entries))
@@ -60,6 +63,11 @@ def table_case(ops, meta, entries):
         cands.add((u, ""))
         cands.add(("", p))
         cands.add((u, p + "x"))
+        # different strings with the same CRC-32 (whatever short-cut the store takes, it compares full digests)
+        if p in CRC_TWINS:
+            cands.add((u, CRC_TWINS[p]))
+        if u in CRC_TWINS:
+            cands.add((CRC_TWINS[u], p))
     for u in USERS[:len(entries) + 1]:
         cands.add((u, "nopass"))
     cands.add(("mallory", "pw1"))
@@ -83,7 +91,7 @@ def add_e2e_suite(c, samples):
         n = rng.randint(1, 5)
         users = rng.sample(USERS, n)
         tables.append(("file", [(u, "pw" + u, rng.choice([None, "", "m1", "tenant" + u[0]])) for u in users]))
-    tables += [("static", ("admin", "secret")), ("static", ("", "b")), ("static", ("", "")), ("static", ("a", ""))]
+    tables += [("file", [("eve", "plumless", "m1"), ("plumless", "pw1", None)]), ("static", ("admin", "plumless")), ("static", ("admin", "secret")), ("static", ("", "b")), ("static", ("", "")), ("static", ("a", ""))]
     for kind, tab in tables:
         ops.append("reset 1")
         if kind == "file":
@@ -100,6 +108,8 @@ def add_e2e_suite(c, samples):
             for cut in {0, 1, len(u) + 1 if len(u) + 1 <= len(cat) else 0, max(0, len(u) - 1), len(cat)}:
                 cands.append((cat[:cut], cat[cut:]))
         cands += [("mallory", "pw1"), ("", "")]
+        twins = [(CRC_TWINS.get(u, u), CRC_TWINS.get(p, p)) for (u, p, m) in entries if u in CRC_TWINS or p in CRC_TWINS]
+        cands = cands[:2] + twins + cands[2:]
         if len(cands) > 14:
             cands = cands[:8] + rng.sample(cands[8:], 6)
         sess = []
@@ -161,6 +171,8 @@ def main(tier=None):
             entries.append((u, rng.choice(["pw1", "pw2", "pw" + u]), rng.choice([None, "", "m1", "m2"])))
         table_case(ops, meta, entries)
         cases += 1
+    table_case(ops, meta, [("eve", "plumless", "m1"), ("plumless", "pw1", None), ("bob", "buckeroo", "")])
+    cases += 1
     loads = {i for i, v in meta.items() if v == "load"}
     meta2 = {i: v for i, v in meta.items() if i not in loads}
     mon = mk_monitor(meta2)
